@@ -47,6 +47,18 @@ func VerifH01b() {
 	outcome := vChoose(3) // 0 accept, 1 reject, 2 fail
 
 	pw := vMsgBytes(typ, body)
+	// the declared length itself may be invalid: below the 4-byte minimum, or
+	// above the message limit (32) with the oversized body actually sent
+	lenMode := vChoose(3)
+	switch lenMode {
+	case 1:
+		pw[4] = byte(vChoose(4))
+		vReach("password-length-below-minimum")
+	case 2:
+		big := make([]byte, 33+vChoose(2))
+		pw = vMsgBytes(typ, big)
+		vReach("password-length-above-limit")
+	}
 	if cut == 1 {
 		vAssume(len(pw) > 1)
 		pw = pw[:1+vChoose(len(pw)-1)]
@@ -87,7 +99,7 @@ func VerifH01b() {
 			break
 		}
 	}
-	wellFormed := cut == 0 && typ == 'p' && nul >= 0
+	wellFormed := cut == 0 && lenMode == 0 && typ == 'p' && nul >= 0
 	accepted := wellFormed && outcome == 0
 
 	vAssert("serve-returns-and-closes", conn.closed >= 1)
